@@ -266,8 +266,11 @@ def write_evidence(prop, level, tier, seed, stats, rule, assumptions, wall_s, ex
 
 def finish(prop, level, tier, seed, stats, rule, assumptions, t0, extra=None):
     """Print KNOWN-FINDING / VIOLATION lines, write evidence, return exit code."""
+    by_what = {}
     for sig, cnt in sorted(stats.known.items()):
-        print('KNOWN-FINDING: property=%s %s [signature=%s; hit in %d cases]' % (prop, stats.known_what.get(sig, sig), sig, cnt))
+        by_what.setdefault(stats.known_what.get(sig, sig), []).append((sig, cnt))
+    for what, sigs in sorted(by_what.items()):      # one line per listed finding
+        print('KNOWN-FINDING: property=%s %s [%s]' % (prop, what, '; '.join('signature=%s hit in %d cases' % sc for sc in sigs)))
     code = 0
     seen = set()
     for sig, detail, case in stats.violations:
